@@ -3,7 +3,8 @@ CONSTANTS
   MaxTicks = 4
   ROSChoices = {TRUE, FALSE}
   RefOutcomes = {"nil", "err"}
+  CloseLate = FALSE
   AllowTBD = TRUE
-INVARIANTS WTypeOK OneRefreshPerTick CtxFromConstructor ErrorsHandledOnce ScheduleConsulted NoRefreshAfterShutdown ShutdownResult
+INVARIANTS WTypeOK OneRefreshPerTick CtxFromConstructor ErrorsHandledOnce ScheduleConsulted NoRefreshAfterShutdown DoneClosedFirst WindowNeverTicks ShutdownResult
 PROPERTIES StoppedIsFinal EventuallyStops
 CHECK_DEADLOCK FALSE
